@@ -46,6 +46,9 @@ type Case struct {
 	Stop     string `json:"stop"`  // stop delete close
 	DelayUS  int    `json:"delayus"` // time between requesting the stop and opening the gates
 	FailNode bool   `json:"failnode"`
+	// Stats: a stats() node hangs on the source node: a second source of the task that runs on a
+	// timer of its own and ends only when the task stops it
+	Stats bool `json:"stats,omitempty"`
 }
 
 const rule = "rapid: pipelines with 1-2 forked outputs (influxDBOut buffer/flushInterval, alert->topic handler, kapacitorLoopback->second task, log sink) x N in {1,10,1001,2500} x gate state of each sink (open / blocked until the stop is requested) x stop kind (StopTask, DeleteTask, TaskMaster.Close) x failing-node variant; " +
@@ -62,6 +65,7 @@ func gen(r *kit.Rec) func(t *rapid.T) Case {
 		c.Stop = rapid.SampledFrom([]string{"stop", "stop", "delete", "close"}).Draw(t, "stop")
 		c.DelayUS = rapid.SampledFrom([]int{0, 200, 5000, 30000}).Draw(t, "delay")
 		c.FailNode = rapid.IntRange(0, 7).Draw(t, "failnode") == 0
+		c.Stats = rapid.IntRange(0, 3).Draw(t, "stats") == 0
 		no := rapid.IntRange(1, 2).Draw(t, "nouts")
 		for i := 0; i < no; i++ {
 			o := Out{Kind: rapid.SampledFrom([]string{"influx", "influx", "alert", "alertlog", "log", "loopback", "logloopback"}).Draw(t, "kind"), PassThru: rapid.IntRange(0, 1).Draw(t, "pass")}
@@ -133,6 +137,9 @@ func (c Case) script() (main, second string) {
 			second += fmt.Sprintf("stream|from().measurement('lb%d')|log().prefix('L%d')\n", i, i)
 		}
 		s.WriteString("\n")
+	}
+	if c.Stats {
+		s.WriteString("p|stats(5ms)|log().prefix('ZS')\n")
 	}
 	return s.String(), second
 }
@@ -279,6 +286,9 @@ func run(c Case, cc *kit.Case) {
 		}
 	}
 	cc.Label("stop:" + c.Stop)
+	if c.Stats {
+		cc.Label("stats-node")
+	}
 	if c.FailNode {
 		cc.Label("failing-node")
 	}
@@ -588,6 +598,7 @@ var assumptions = []string{
 	"sinks are harness fakes: a counting InfluxDB client, an alert.Handler registered on the alert's topic, log() sinks; each is either open or blocked until the stop has been requested (the harness owns sink timing and the moment of the stop, not the Go scheduler)",
 	"alert topic handlers and the task behind kapacitorLoopback receive their data asynchronously: they are given up to 20 s after the stop returned",
 	"kapacitorLoopback is not combined with TaskMaster.Close (the loopback writes into the TaskMaster that is closing)",
+	"a stats() node on the source (one case in four) is a second source of the task that runs on a 5 ms timer of its own: it takes part only in the termination checks (stop returns, goroutine census), its output is not counted",
 	"hang bound 20 s for work that takes milliseconds; goroutine census = goroutines with kapacitor frames after Close, compared with the count before the case",
 	"fewer than 5000 alert events per case (the topic's per-handler buffer; beyond it events are dropped with a logged error)",
 }
